@@ -346,7 +346,7 @@ def interleave_levels(order, rng):
 def population(ctx):
     rng = ctx.rng
     specs = sg.hand_written()
-    n = 160 if ctx.quick() else 1200
+    n = 120 if ctx.quick() else 1200
     for _ in range(n):
         specs.append(sg.gen_spec(rng))
     return specs
@@ -535,7 +535,7 @@ def run(ctx):
     all_jobs = []
     work = []
     for k, s in enumerate(specs):
-        js = jobs_for(s, s["coq"], rng, forms_all=(k < 7 or k % 5 == 0))
+        js = jobs_for(s, s["coq"], rng, forms_all=(k < 10 or k % 5 == 0))
         all_jobs.append(js)
         work.append(("inspect", js[0][2], len(s["einsums"])))
         work.extend(("compile", j[2], 0) for j in js)
@@ -572,7 +572,7 @@ def run(ctx):
                         k = d.split("(")[0]
                         dist["partition_kind"][k] = dist["partition_kind"].get(k, 0) + 1
     samples = []
-    for s in specs[7:]:
+    for s in specs[10:]:
         if len(samples) >= 3:
             break
         if s["mapping"]["partitioning"] and len(s["einsums"]) >= 1 and not all(s["mapping"]["loop-order"].get(e["out"]) for e in s["einsums"]):
